@@ -177,6 +177,17 @@ impl Node {
         out
     }
 
+    /// one database of `dump` (servers that live for a whole campaign hold thousands of databases)
+    pub fn dump_db(&self, name: &str) -> Option<BTreeMap<String, (String, i32, bool)>> {
+        let dbs = self.dbs.map.read().unwrap();
+        let db = dbs.get(name)?;
+        let mut m = BTreeMap::new();
+        for (k, v) in db.map.read().unwrap().iter() {
+            m.insert(k.clone(), (v.value.clone(), v.version, v.state == ValueStatus::Deleted));
+        }
+        Some(m)
+    }
+
     /// No RwLock / Mutex reachable from Databases is poisoned.
     pub fn poisoned(&self) -> Option<String> {
         let d = &self.dbs;
